@@ -54,7 +54,8 @@ KEYS = [ksrxml.mk_key(P.rsa(1024, 65537, 150), alg=8, flags=257, ident="Kalpha")
         ksrxml.mk_key(P.rsa(1024, 65537, 151), alg=8, flags=257, ident="Kextra1"),
         ksrxml.mk_key(P.ec(256, 151), alg=13, flags=257, ident="Kextra2"),
         ksrxml.mk_key(P.ec_tag_carry(13, 257), alg=13, flags=257, ident="Kcarry"),        # (sum & 0xFFFF) + (sum >> 16) overflows 16 bits
-        ksrxml.mk_key(P.ec_revoke_carry(13), alg=13, flags=257, ident="Kffxx")]
+        ksrxml.mk_key(P.ec_revoke_carry(13), alg=13, flags=257, ident="Kffxx"),
+        ksrxml.mk_key(P.ec_x_first(13, 4), alg=13, flags=257, ident="Kx04a"), ksrxml.mk_key(P.ec_x_first(14, 4), alg=14, flags=257, ident="Kx04b")]
 P.save()
 cases, meta, hist = [], [], {}
 log = logging.getLogger("verif.c18")
@@ -304,6 +305,9 @@ ks = {"a": ceremony.ksk_def(KEYS[2], valid_from=t0, algorithm="RSASHA256", label
 export_case(token_for([KEYS[2]]), ks, None, "alg8-for-10", "configured-algorithm-decides")
 ks = {"a": ceremony.ksk_def(KEYS[7], valid_from=t0), "b": ceremony.ksk_def(KEYS[8], valid_from=t0 + dt.timedelta(days=1)), "c": ceremony.ksk_def(KEYS[0], valid_from=t0)}
 export_case(token_for([KEYS[7], KEYS[8], KEYS[0]]), ks, None, "carry", "key-tag-carry")
+ks = {"a": ceremony.ksk_def(KEYS[9], valid_from=t0), "b": ceremony.ksk_def(KEYS[10], valid_from=t0 + dt.timedelta(days=2))}
+for wrapped in (True, False):
+    export_case([[{"id": 0, "objs": S.pair(KEYS[9]["id"], KEYS[9], ec_wrapped=wrapped) + S.pair(KEYS[10]["id"], KEYS[10], ec_wrapped=wrapped)}]], ks, None, "x04", "ec-x-starts-with-04")
 for ttl in (0, 3600, 2**31 - 1):
     export_case(token_for([KEYS[0]]), {"a": ceremony.ksk_def(KEYS[0], valid_from=t0)}, None, "ttl", "ttl", ttl=ttl)
 
